@@ -100,12 +100,14 @@ static void imm_tok(struct instr *instr_buffer, char *imme) {
   instr_buffer->imm = true;
   int base = RADIX_10;
   imme = strtok_r(imme, " ", &saved_saved);
-  if (imme[1] == 'x' || imme[2] == 'x') {
+  bool hex = imme[1] == 'x' || imme[2] == 'x';
+  if (hex)
     base = RADIX_16;
-    if ((instr_buffer->assembly_opt & SMART_MOV_IMM) &&
-        imme_str_len < STR_HEX_64)
-      instr_buffer->assembly_opt |= NASM_MOV_IMM;
-  }
+  // smart mode: only a hexadecimal literal written with all 16 digits keeps
+  // the 64-bit form, any other spelling is handled like in nasm mode
+  if ((instr_buffer->assembly_opt & SMART_MOV_IMM) &&
+      !(hex && imme_str_len >= STR_HEX_64))
+    instr_buffer->assembly_opt |= NASM_MOV_IMM;
   // convert string to unsigned long for immediate representation
   instr_buffer->cons = strtoul(imme, NULL, base);
 }
